@@ -8,9 +8,11 @@ Everything below is about the executable model `RichModel.Syntax` (Model/Syntax.
 lexer `lex` that meets the contract "the token texts concatenate to Pygments' preprocessing of the code it
 was handed", an arbitrary cell-width function `cw`, and sources / widths / ranges of any size.
 The theorems are stated for the REPAIRED variant (`stripnl = false`, `skipRaises = false`, `rangePop = false`):
-the first two are what /repo contains now (`fix:` commits 92fb879, 1d638e8), the third is pending
-(pending_fixes/C17-range-drops-trailing-blank-line.diff); the `old_…` witnesses show that the variants of rich
-9.10.0 as found (`= true`) violate them.
+all three are what /repo contains now (`fix:` commits 92fb879, 1d638e8, bc6c38f); the `old_…` witnesses show that
+the variants of rich 9.10.0 as found (`= true`) violate them.  Two further variants exist only to say what the
+history / purity theorems rule out (`renderHistory true`: a source cache that outlives a call; `objRenders true`:
+a highlighted Text remembered on the instance) — no version of rich had them.
+Not part of C17's statement, recorded only: `measure_maximum_one_short_with_numbers` (the C09 clause for Syntax).
 
 Vocabulary (Lemmas/Syntax*.lean):
   `splitNL s`            `s.split("\n")`,
